@@ -337,6 +337,11 @@ var evFallbacks = 0
 
 // wait until nothing moves any more
 func (c *evCluster) settle() []uint64 {
+	c.waitQuiet()
+	return c.settled()
+}
+
+func (c *evCluster) waitQuiet() {
 	var prev []uint64
 	same := 0
 	quietSeen := !evAlone
@@ -371,6 +376,9 @@ func (c *evCluster) settle() []uint64 {
 		}
 		prev = cur
 	}
+}
+
+func (c *evCluster) settled() []uint64 {
 	for i := uint64(1); i <= uint64(c.n); i++ {
 		// a new leader stores the no-op of its term before anything else: wait for it
 		n := c.nodes[i]
@@ -412,6 +420,8 @@ func (c *evCluster) do(op []uint64) bool {
 			n.r.VerifSetElectionTimeout(15 * time.Millisecond)
 			c17wait(func() bool { return n.r.CurrentTerm() > t0 || n.r.State() != raft.Candidate }, 2*time.Second)
 			n.r.VerifSetElectionTimeout(time.Hour)
+			// (checked once nothing can move any more: the second firing may land just after the timer was set back)
+			c.waitQuiet()
 			if n.r.CurrentTerm() > t0+1 {
 				// the short timer fired more than once before it was set back (the process was
 				// descheduled for longer than the timeout): the script has lost control, it ends here
